@@ -1,4 +1,5 @@
 import Ruint.Base
+import Ruint.Gen.Words
 /-!
 # Model of `src/add.rs` (+ `carrying_add`/`borrowing_sub` of `src/algorithms/mod.rs`)
 
@@ -7,23 +8,12 @@ A `Uint<BITS, LIMBS>` is a list of `nlimbs bits` words.
 -/
 namespace Ruint.Add
 
-/-- `carrying_add`: two `overflowing_add`s, carries OR-ed. -/
-def carryingAdd (lhs rhs : Nat) (carry : Bool) : Nat × Bool :=
-  let s1 := lhs + rhs
-  let r1 := s1 % W
-  let c1 := decide (W ≤ s1)
-  let s2 := r1 + carry.toNat
-  let r2 := s2 % W
-  let c2 := decide (W ≤ s2)
-  (r2, c1 || c2)
+/-- `carrying_add` — the definition is GENERATED from `src/algorithms/mod.rs` by `tools/rs2lean.py`
+    on every run (`Ruint/Gen/Words.lean`); the model uses it as its word primitive. -/
+def carryingAdd (lhs rhs : Nat) (carry : Bool) : Nat × Bool := Ruint.Gen.carrying_add lhs rhs carry
 
-/-- `borrowing_sub`: two `overflowing_sub`s, borrows OR-ed. -/
-def borrowingSub (lhs rhs : Nat) (borrow : Bool) : Nat × Bool :=
-  let r1 := (lhs + W - rhs) % W
-  let b1 := decide (lhs < rhs)
-  let r2 := (r1 + W - borrow.toNat) % W
-  let b2 := decide (r1 < borrow.toNat)
-  (r2, b1 || b2)
+/-- `borrowing_sub` — likewise generated from the source. -/
+def borrowingSub (lhs rhs : Nat) (borrow : Bool) : Nat × Bool := Ruint.Gen.borrowing_sub lhs rhs borrow
 
 /-- the `while i < LIMBS` loop of `overflowing_add`. -/
 def addChain : List Nat → List Nat → Bool → List Nat × Bool
